@@ -179,7 +179,7 @@ pub fn c17(a: &Args, rep: &mut Report) {
         let c = gen_case("C17", &a.tier, a.seed, k, &o);
         one_c17("C17", &c, rep);
     });
-    large_cases(a, rep, "C17", &[3000, 20000, 60000, 20000], &[3000, 20000, 60000, 200000, 200000], |c, rep| one_c17("C17", c, rep));
+    large_cases(a, rep, "C17", &[3000, 20000, 70000, 20000], &[3000, 20000, 70000, 140000, 270000], |c, rep| one_c17("C17", c, rep));
     zoom_cells(a, rep, "C17", false, 400, 6000, |c, rep| one_c17("C17", c, rep));
 }
 
